@@ -37,6 +37,11 @@ func init() {
 	for _, l := range []string{"a", "b", "c", "x", "m", "s0", "s1"} {
 		universe[l] = clus.Cid(l)
 	}
+	// b and x are other CIDs of a's content (a is v1/raw; b the CIDv0, x the
+	// v1/dag-pb of the same multihash): different CIDs are different entries,
+	// and a never-pinned CID is not found because a sibling is pinned
+	universe["b"] = clus.CidV0("a")
+	universe["x"] = cid.NewCidV1(cid.DagProtobuf, clus.Cid("a").Hash())
 	node, err := cbor.WrapObject(map[string]cid.Cid{"0": universe["s0"], "1": universe["s1"]},
 		mh.SHA2_256, mh.DefaultLengths[mh.SHA2_256])
 	if err != nil {
